@@ -2,7 +2,7 @@
 # Replay of a solver counterexample against the unmodified code (no shims).
 # property=C16 kernel=values label=k2:finite
 import sys
-sys.path[:0] = ["/repo/pulser-core", "/repo/pulser-simulation", "/verif"]
+sys.path[:0] = ['/repo' + "/pulser-core", '/repo' + "/pulser-simulation", "/verif"]
 from symx.replay import replay
 sys.exit(replay(check='checks.c16', kernel='values', shape={'cls': 'blackman', 'dur': 2, 'div': True, 'eq': True},
                 assignment={'area': '0/1'}, label='k2:finite'))
